@@ -1,16 +1,18 @@
 #!/bin/bash
 # usage: tools/try_mutant.sh <patch.diff> "<props>" [tier]
-# Applies the patch to /repo, runs the listed checks (evidence/replays go to a scratch dir), reverts the patch.
+# Applies the patch in a scratch worktree of /repo (outside /repo and /verif), points the checks at it
+# with VERIF_REPO, runs the listed checks (evidence/replays go to a scratch dir), removes the worktree.
 set -u
 cd "$(dirname "$0")/.."
 PATCH=$(realpath "$1"); PROPS="$2"; TIER="${3:-quick}"
-if ! git -C /repo diff --quiet; then echo "/repo has uncommitted changes; refusing"; exit 3; fi
-git -C /repo apply "$PATCH" || { echo "patch does not apply"; exit 3; }
+WT=$(mktemp -d /tmp/mut-wt.XXXXXX); rmdir $WT
+git -C /repo worktree add -q --detach $WT HEAD || exit 3
+( cd $WT && git apply "$PATCH" ) || { echo "patch does not apply"; git -C /repo worktree remove --force $WT; exit 3; }
 SCR=$(mktemp -d /tmp/mutant-ev.XXXXXX)
 for p in $PROPS; do
-  out=$(VERIF_EVIDENCE_DIR=$SCR VERIF_REPLAY_DIR=$SCR/replays ./check $p --tier $TIER 2>&1); rc=$?
+  out=$(VERIF_REPO=$WT VERIF_EVIDENCE_DIR=$SCR VERIF_REPLAY_DIR=$SCR/replays ./check $p --tier $TIER 2>&1); rc=$?
   echo "== $p rc=$rc"
-  echo "$out" | grep -E "^(VIOLATION|KNOWN-FINDING|HELD|INCONCLUSIVE)|^  key=" | head -8 | cut -c1-260
+  echo "$out" | grep -E "^(VIOLATION|HELD|INCONCLUSIVE)|^  key=" | grep -E "key=|HELD|INCONCLUSIVE" | head -5 | cut -c1-220
 done
-git -C /repo checkout -- .
+git -C /repo worktree remove --force $WT
 rm -rf "$SCR"
